@@ -53,6 +53,19 @@ fn run(op: &Op) -> (u64, usize) {
             dg.u64(hh);
             dg.f64(dx);
             dg.f64(dy);
+            // the remaining per-cell accessors of the convenience API
+            let (sl, sb) = nested::sph_coo(*d, *h, 0.3, 0.7);
+            dg.f64(sl);
+            dg.f64(sb);
+            for (gl, gb) in nested::grid(*d, *h, 2).iter() {
+                dg.f64(*gl);
+                dg.f64(*gb);
+            }
+            for (pl, pb) in nested::path_along_cell_edge(*d, *h, &cdshealpix::compass_point::Cardinal::S, false, 2).iter() {
+                dg.f64(*pl);
+                dg.f64(*pb);
+            }
+            dg.u64(nested::n_hash(*d));
         }
         Op::N { d, h } => {
             let m = nested::neighbours(*d, *h, true);
@@ -67,6 +80,7 @@ fn run(op: &Op) -> (u64, usize) {
         Op::K { d, lon, lat, r } => bmoc_digest(&mut dg, &nested::cone_coverage_approx(*d, *lon, *lat, *r)),
         Op::Kc { d, dd, lon, lat, r } => bmoc_digest(&mut dg, &nested::cone_coverage_approx_custom(*d, *dd, *lon, *lat, *r)),
         Op::E { d, lon, lat, a, b, pa } => bmoc_digest(&mut dg, &nested::elliptical_cone_coverage(*d, *lon, *lat, *a, *b, *pa)),
+        Op::Ec { d, dd, lon, lat, a, b, pa } => bmoc_digest(&mut dg, &nested::elliptical_cone_coverage_custom(*d, *dd, *lon, *lat, *a, *b, *pa)),
         Op::P { d, verts, exact } => bmoc_digest(&mut dg, &nested::polygon_coverage(*d, verts, *exact)),
         Op::X { d, h, dd } => {
             for v in nested::external_edge_sorted(*d, *h, *dd).iter() {
